@@ -53,6 +53,36 @@ func init() {
 		ndPkg + ".IteInt": func(in *Interp, fn *ssa.Function, a []Value) Value {
 			return in.St.Ite(a[0].(*sym.Term), a[1].(*sym.Term), a[2].(*sym.Term))
 		},
+		ndPkg + ".IteStr": func(in *Interp, fn *ssa.Function, a []Value) Value {
+			sc := &specCtx{in: in}
+			c := a[0].(*sym.Term)
+			if c.IsTrue() {
+				return a[1]
+			}
+			if c.IsFalse() {
+				return a[2]
+			}
+			var res Value
+			func() {
+				defer func() {
+					if r := recover(); r != nil {
+						if _, ok := r.(specAbort); ok {
+							in.fail("nd.IteStr: unmergeable strings")
+						}
+						panic(r)
+					}
+				}()
+				res = sc.mergeVal(c, a[1], a[2])
+			}()
+			return res
+		},
+		"slices.Contains": func(in *Interp, fn *ssa.Function, a []Value) Value {
+			var ds []*sym.Term
+			for _, e := range in.sliceElems(a[0]) {
+				ds = append(ds, in.equal(e, a[1]))
+			}
+			return in.St.Or(ds...)
+		},
 		ndPkg + ".StrEq": func(in *Interp, fn *ssa.Function, a []Value) Value { return in.strEq(a[0].(*Str), a[1].(*Str)) },
 		ndPkg + ".CountByte": func(in *Interp, fn *ssa.Function, a []Value) Value {
 			b := a[1].(*sym.Term)
@@ -176,6 +206,8 @@ func init() {
 			b := in.St.Int(int64(s.conc[0]))
 			return &Str{kind: sView, length: n, max: -1, origin: "repeat", at: func(i *sym.Term) *sym.Term { return b }}
 		},
+		"strings.Clone":                 func(in *Interp, fn *ssa.Function, a []Value) Value { return a[0] },
+		"internal/stringslite.Clone":    func(in *Interp, fn *ssa.Function, a []Value) Value { return a[0] },
 		"strings.EqualFold": func(in *Interp, fn *ssa.Function, a []Value) Value {
 			x, y := a[0].(*Str), a[1].(*Str)
 			if x.kind == sConc && y.kind == sConc {
@@ -410,6 +442,21 @@ func (in *Interp) inputBool(name string) *sym.Term {
 func (in *Interp) inputStr(name string, max int) *Str {
 	st := in.St
 	if inp, ok := in.inputIdx[name]; ok {
+		switch inp.Kind {
+		case InEnum:
+			if len(inp.Alts) == 1 {
+				return concStr(inp.Alts[0])
+			}
+			mx := 0
+			for _, x := range inp.Alts {
+				if len(x) > mx {
+					mx = len(x)
+				}
+			}
+			return &Str{kind: sEnum, sel: inp.T, alts: inp.Alts, max: mx}
+		case InAtom:
+			return &Str{kind: sAtom, atom: inp.T, max: -1}
+		}
 		return in.viewOf(inp)
 	}
 	ln := st.Var("l_"+name, sym.SInt)
@@ -485,9 +532,6 @@ func ndEnum(in *Interp, fn *ssa.Function, a []Value) Value {
 	if len(alts) == 0 {
 		in.fail("nd.Enum without alternatives")
 	}
-	if len(alts) == 1 {
-		return concStr(alts[0])
-	}
 	inp, ok := in.inputIdx[name]
 	if !ok {
 		t := in.St.Var("e_"+name, sym.SInt)
@@ -495,6 +539,9 @@ func ndEnum(in *Interp, fn *ssa.Function, a []Value) Value {
 		in.inputs = append(in.inputs, inp)
 		in.inputIdx[name] = inp
 		in.addPC(in.St.InRange(t, 0, int64(len(alts)-1)))
+	}
+	if len(alts) == 1 {
+		return concStr(alts[0])
 	}
 	mx := 0
 	for _, x := range alts {
@@ -546,6 +593,10 @@ func ndAssert(in *Interp, fn *ssa.Function, a []Value) Value {
 	in.Sol.Push()
 	in.Sol.Assert(neg)
 	r := in.Sol.Check()
+	if r == sym.RUnknown {
+		// portfolio: a second solver gets the same query (full path condition) before the run is declared inconclusive
+		r = in.fallbackCheck(neg)
+	}
 	if r == sym.RUnsat && in.cross != nil {
 		in.crossCheck(neg)
 	}
@@ -606,6 +657,36 @@ func (in *Interp) extractModelMinimised() (Model, map[string]interface{}, error)
 		}
 	}
 	return in.extractModel()
+}
+
+func (in *Interp) fallbackCheck(neg *sym.Term) sym.Result {
+	if in.fallback == nil {
+		fb, err := sym.NewSolver("cvc5", in.St, in.Ex.TimeoutMS*2)
+		if err != nil {
+			return sym.RUnknown
+		}
+		in.fallback = fb
+	}
+	c := in.fallback
+	c.ClearErr()
+	c.Push()
+	for _, p := range in.pc {
+		c.Assert(p)
+	}
+	c.Assert(neg)
+	r := c.Check()
+	c.Pop()
+	in.Ex.mu.Lock()
+	in.Ex.FallbackQueries++
+	if r != sym.RUnknown {
+		in.Ex.FallbackDecided++
+	}
+	in.Ex.mu.Unlock()
+	if r == sym.RSat {
+		// models are extracted from the primary solver; a sat verdict of the fallback alone cannot be replayed
+		return sym.RUnknown
+	}
+	return r
 }
 
 func (in *Interp) crossCheck(neg *sym.Term) {
